@@ -320,7 +320,7 @@ pub fn run(args: &Args, out: &mut Out) {
     }
     let mut idx = 0u64;
     // bounded-exhaustive message-cache sequences
-    let depth = if args.count > 0 { 0 } else if args.thorough { 6 } else { 4 };
+    let depth = if args.count > 0 { 0 } else if args.thorough { 5 } else { 4 };
     for (g, h) in [(1usize, 2usize), (2, 2)] {
         if depth == 0 {
             break;
@@ -351,7 +351,7 @@ pub fn run(args: &Args, out: &mut Out) {
         }
     }
     // bounded-exhaustive duplicate-cache sequences: ttl 2, two keys, time steps 0/1/2
-    let ddepth = if args.count > 0 { 0 } else if args.thorough { 7 } else { 5 };
+    let ddepth = if args.count > 0 { 0 } else if args.thorough { 6 } else { 5 };
     if ddepth > 0 {
         let alpha: [(u64, u8, u64); 6] = [(0, 0, 0), (1, 0, 0), (2, 0, 0), (0, 0, 1), (1, 0, 1), (1, 1, 0)];
         let total = (alpha.len() as u64).pow(ddepth);
@@ -368,7 +368,7 @@ pub fn run(args: &Args, out: &mut Out) {
             idx += 1;
         }
     }
-    let n = args.n(600, 40_000);
+    let n = args.n(600, 10_000);
     for i in 0..n {
         let mut rng = Rng::for_case(args.seed, i);
         let (class, ops) = match rng.below(20) {
